@@ -1,5 +1,5 @@
 #!/bin/bash
-# tools/seed_confirm.sh <ID> <a|b>
+# tools/seed_confirm.sh <ID> <a|b>     (PHASE=confirm: scratch-worktree part only; PHASE=check: /repo part only, after confirm)
 # Confirms a sub-agent's seeded change in its scratch worktree /tmp/seed/<ID> (never in /repo):
 #   demo passes without the change, unit tests pass with it, demo fails with it.
 # Then runs the property's quick check against it by applying the patch to /repo transiently.
@@ -7,6 +7,8 @@
 ID=$1; V=$2
 R=${SEED_ROOT:-/tmp/seed}; W=$R/$ID; O=$R/$ID-out
 [ -f $O/$V.diff ] || { echo "no $O/$V.diff"; exit 1; }
+PHASE=${PHASE:-all}
+if [ "$PHASE" != check ]; then
 cd $W || exit 1
 git checkout -q -- . ; rm -rf rust/ommx/tests
 mkdir -p rust/ommx/tests; cp $O/demo_$V.rs rust/ommx/tests/seed_demo.rs
@@ -19,6 +21,10 @@ git checkout -q -- . ; rm -rf rust/ommx/tests
 echo "demo clean : $clean_demo"
 echo "unit mutant: $unit"
 echo "demo mutant: $mut_demo"
+printf '%s\n%s\n%s\n' "$clean_demo" "$unit" "$mut_demo" > $O/confirm_$V.txt
+fi
+[ "$PHASE" = confirm ] && exit 0
+clean_demo=$(sed -n 1p $O/confirm_$V.txt); unit=$(sed -n 2p $O/confirm_$V.txt); mut_demo=$(sed -n 3p $O/confirm_$V.txt)
 # run my check against it
 cd /repo; [ -z "$(git status --porcelain)" ] || { echo "/repo dirty"; exit 1; }
 git apply $O/$V.diff || { echo "patch does not apply to /repo"; exit 1; }
